@@ -199,9 +199,9 @@ def c05(work, tier, seed):
             continue
         cfg = {"tokenAuth": "openid" in ms, "smartCard": False, "auths": list(ms), "auth": "", "sel": "roundrobin", "hosts": [["H1", ":", "PA"]], "verifyIp": True, "idle": 0,
                "tls": "local" in ms}
-        for scheme in [x for x in ("local", "ntlm") if x in ms] + (["local-slow"] if "local" in ms else []):
+        for scheme in [x for x in ("local", "ntlm") if x in ms] + (["local-slow", "local-at"] if "local" in ms else []) + (["ntlm-at", "ntlm-bsl"] if "ntlm" in ms else []):
             others = {"local": ["basic-right-8", "basic-wrongpw", "absent", "basic-unknown"], "ntlm": ["ntlm-wrongpw", "absent", "ntlm-unknown", "ntlm-garbage"],
-                      "local-slow": ["absent"]}[scheme]
+                      "local-slow": ["absent"], "local-at": ["absent"], "ntlm-at": ["absent"], "ntlm-bsl": ["absent"]}[scheme]
             for tr in ("legacy", "ws"):
                 for k in range(2 if tier == "quick" else 6):
                     n = [1, 3, 6, 2, 4, 8][k]
